@@ -6,6 +6,7 @@ CONSTANTS
   Dev_IdleIgnoresTimers = TRUE
   Dev_InternalActivityKeepsIdleFlag = TRUE
   Dev_IdleIgnoresMailbox = TRUE
+  Dev_CancelBypassesLock = FALSE
   WithCancel = TRUE
 INIT TraceInit
 NEXT TraceNext
